@@ -11,12 +11,12 @@ P = {
  "C04": ("LDPC streaming receivers; after every delivered event (every prefix of every arrival sequence) the available source set must equal the source part of the peeling closure computed by an independent model; duplicates must change nothing.", "4 C04"),
  "C05": ("Every LDPC session created anywhere in a run (encoder/decoder, probe senders, after arbitrary histories of other sessions, cold process) has its parity-check matrix compared entry by entry with an independent RFC 5170 implementation (white box), its encoder output compared with the model code (black box), and mixed deployments (reference sender -> real receiver) are decoded under the C03/C04 oracles.", "4 C05"),
  "C06": ("Every of_build_repair_symbol of every real sender (all codecs, NULL or own output slot, any interleaving, cross-codec RS flows) is compared byte-wise with the reference code (Lagrange form of the Vandermonde RS generator; RFC 5170 equations), source buffers and the pointer table are checksummed around the call.", "4 C06"),
- "C07": ("The complete swarm (all codecs, modes, callbacks, abandon at arbitrary points, restart, early encoder release, API and OTI faults) runs under ASan + array-bounds with exact-size heap buffers at chosen misalignments; application buffers and tables are checksummed after calls; the free() wrapper reports the library freeing application memory; crashes are replayed and minimised.", "4 C07"),
+ "C07": ("The complete swarm (all codecs, modes, callbacks, abandon at arbitrary points, restart, early encoder release, late packets and a second timer after a successful finish, ENCODER_AND_DECODER instances, API and OTI faults) runs under ASan + array-bounds with exact-size heap buffers at chosen misalignments; application buffers and tables are checksummed after calls; the free() wrapper reports the library freeing application memory; crashes are replayed and minimised.", "4 C07"),
  "C08": ("Release is an explicit fault that can land at any point of a session's life; an exact per-session allocation ledger behind --wrap=malloc/calloc/realloc/free must be empty (minus what the API says the application owns) when of_release_codec_instance returns; the violation names the allocating function.", "4 C08"),
- "C09": ("Wire-carried parameters are corrupted field by field on a boundary grid (0, 1, limit-1, limit, limit+1, 2*limit, 2^16, 2^31-2, 2^31-1, 2^31, 2^32-1) and calls are corrupted (NULL session, ESI out of range, wrong role) in the middle of live flows; status must match the advertised domain, accepted configurations are driven through whole flows under all other oracles, rejected sessions must release cleanly, no crash or hang.", "4 C09"),
+ "C09": ("Wire-carried parameters are corrupted field by field on a boundary grid (0, 1, limit-1, limit, limit+1, 2*limit, 2^16, 2^31-2, 2^31-1, 2^31, 2^32-1) and calls are corrupted (NULL session, ESI out of range incl. on never-configured sessions, wrong role) in the middle of live flows, the codec-2 field size may be preset through OF_RS_CTRL_SET_FIELD_SIZE with the same or another m; status must match the advertised domain, accepted configurations are driven through whole flows under all other oracles, rejected sessions must release cleanly, no crash or hang.", "4 C09"),
  "C10": ("After every call of every decoder history (incl. finish after completion, finish on partial blocks, late deliveries): finish status vs completion, submission statuses, completion flag vs availability and its monotonicity, and pointer identity of received source symbols.", "4 C10"),
  "C11": ("Receivers with a decoded-source-symbol callback returning a buffer, NULL or a seeded mix, loss patterns that make each decoding stage (IT recursion, ML simplification, Gaussian elimination, RS matrix decode) produce symbols; callback log and final table are checked after every call.", "4 C11"),
- "C12": ("2-8 sessions of different codecs/parameters interleaved at API-call granularity by the seeded scheduler; each session's projection of the plan is then executed alone (different global PRNG state) and the per-call observation traces must be identical.", "4 C12"),
+ "C12": ("2-8 sessions of different codecs/parameters interleaved at API-call granularity by the seeded scheduler; each session's projection of the plan is then executed alone (different global PRNG state) and the per-call observation traces must be identical; sibling flows (same block, one parameter changed) target state shared through static storage; a run whose event log depends on the runs that preceded it in the worker process is delta-debugged to a multi-plan replay (last plan alone vs after its history).", "4 C12"),
  "C15": ("LDPC flows with even and odd N1 on both sides of the extra-entries threshold; senders follow the eperftool protocol (skip ESI n-1 when the flag is true); the claim is checked against the model's column weights, the symbol actually built, encoder/decoder agreement, and the flow must still decode under O-DATA/O-ML.", "4 C15"),
  "C16": ("Codec-5 flows over every (k, n-k) with k<=16, n<=24 (accepted or not), all receiver modes and abandon points; encoder output vs the product-code model, wrong-data check after every call, completeness of of_finish_decoding vs GF(2) rank of the product code, ledger at release.", "4 C16"),
 }
@@ -38,7 +38,7 @@ for pid, (text, ref) in sorted(P.items()):
         "replay_cmd_template": "bin/check --replay {path}",
         "engine": "fecsim",
         "level_claimed": {"category": "exploration", "text": text + " Seeded sampling of schedules and fault sequences: a clean batch is evidence, not proof.", "design_ref": "DESIGN.md section " + ref},
-        "level_note": "Trusted: the reference models (cross-checked against the unchanged library), the stub applications' reading of the API protocol (DESIGN H1), clang 14 ASan/bounds instrumentation. Every violation is gated by two fresh-process replays with identical event-log hash and minimised by delta debugging before it is reported.",
+        "level_note": "Trusted: the reference models (cross-checked against the unchanged library), the stub applications' reading of the API protocol (DESIGN H1), clang 14 ASan/bounds instrumentation. Every violation is gated by two fresh-process replays with identical event-log hash (with the worker's process history when the library keeps state in static storage) and minimised by delta debugging before it is reported. Validated against 60+ independently seeded defects (DESIGN.md section 10).",
         "technique": TECH,
     })
 m = {
